@@ -27,7 +27,7 @@ def budget(tier):
     return {"examples": 2500 if tier == "quick" else 80000, "wall_s": 110 if tier == "quick" else 1500}
 
 
-NO = ["exp", "tanh", "sigmoid", "cauchycdf", "squeeze", "glu", "compositecdf"]  # Sigmoid.eps clamps beyond |x| ~ 13.8: not bijective there
+NO = ["exp", "tanh", "sigmoid", "cauchycdf", "squeeze", "compositecdf"]  # Sigmoid.eps clamps beyond |x| ~ 13.8: not bijective there
 
 
 @st.composite
@@ -138,6 +138,8 @@ def run_case(case):
                 ctx = torch.cat([100.0 * torch.arange(rows, dtype=torch.float64)[:, None].expand(rows, D),
                                  torch.full((rows, D), float(np.log(1e-2)), dtype=torch.float64)], 1)
         flow.eval()
+        import copy
+        pristine = copy.deepcopy(flow)       # never called: its log_prob is the density "before anything was sampled"
         site = type(flow).__name__
         n = case["n"]
         res.labels += ["what:" + what, "kind:" + case["kind"], "base:" + case["base"], "ctx:%s" % (ctx is not None), "embed:%s" % bool(case["embed"] and ctx is not None)]
@@ -168,6 +170,15 @@ def run_case(case):
                 res.inconclusive += 1
                 return res
             res.nontrivial = (ctx is not None and rows >= 2) or n >= 2
+            # the density must not depend on whether the flow has sampled before (caches filled through the inverse direction)
+            x_ = (s[:, 0] if ctx is not None else s[:1])
+            va, vb = guard(lambda: flow.log_prob(x_, ctx)), guard(lambda: pristine.log_prob(x_, ctx))
+            if va is not None and vb is not None and bool(torch.isfinite(va).all()) and bool(torch.isfinite(vb).all()):
+                dv = float((va - vb).abs().max())
+                if dv > 1e-6 * (1 + float(vb.abs().max())):
+                    res.fail("log_prob_changed_by_sampling", site, "log_prob of the same points differs by %.3g between a flow that has sampled and a "
+                             "never-used copy of it" % dv, measured=dv, base=case["base"])
+                    return res
             for i in range(rows if ctx is not None else 1):
                 for j in range(n):
                     x = (s[i, j] if ctx is not None else s[j])[None]
